@@ -95,9 +95,18 @@ def install_source(ex, tree, short_reads=0):
 
     def add(p, f):
         I.insert(0, (re.compile('(?:' + p + r')$'), f))
-    add(r'(?:source::)?SourceTree::open::<.*>', lambda ex, c, a: ok(tree))
+    def tree_of(v):
+        # several source trees (two racing backups): `tree` is a dict keyed by the source path handed to backup()
+        if isinstance(tree, dict):
+            v = deref(v)
+            if isinstance(v, SourceTreeV):
+                return v
+            key = str_simplify(M.path_str(v)) if not isinstance(v, str) else v
+            return tree[key]
+        return tree
+    add(r'(?:source::)?SourceTree::open::<.*>', lambda ex, c, a: ok(tree_of(a[0])))
     add(r'(?:source::)?SourceTree::iter_entries',
-        lambda ex, c, a: ok(SourceIterV([source_entry_value(ex, f) for f in tree.files])))
+        lambda ex, c, a: ok(SourceIterV([source_entry_value(ex, f) for f in tree_of(a[0]).files])))
     add(r'<(?:source::)?SourceTree as Clone>::clone', lambda ex, c, a: deref(a[0]))
 
     def it_next(ex, c, a):
@@ -113,7 +122,7 @@ def install_source(ex, tree, short_reads=0):
     def open_file(ex, c, a):
         ap = deref(a[1])
         p = str_simplify(deref(ap).fields[0])
-        for f in tree.files:
+        for f in tree_of(a[0]).files:
             if f.path == p or (isinstance(f.path, SymStr) and f.path is deref(ap).fields[0]):
                 return ok(FileV(f, short_reads))
         raise Unsupported('open_file of unknown path %r' % (p,))
@@ -367,8 +376,9 @@ def sym_mode(ex, label):
 
 
 def sym_options(ex, label='o'):
-    B = ex.fresh_int(label + 'B', 1, 1 << 20)
-    C = ex.fresh_int(label + 'C', 0, 1 << 21)
+    # ranges reach past the defaults (20 MiB blocks, 1 MiB small-file cap) so that size-dependent special cases are inside
+    B = ex.fresh_int(label + 'B', 1, 1 << 25)
+    C = ex.fresh_int(label + 'C', 0, 1 << 26)
     H = ex.fresh_int(label + 'H', 1, 4)
     return B, C, H
 
@@ -467,9 +477,13 @@ def make_case(prog, case):
                                            mode=f.mode, owner=A.mk_owner(ex, f.user, f.group)))
                 A.put_hunk(ex, st, 0, 0, ents)
                 A.put_tail(ex, st, 0, 1)
-                st.mode = 'run'
-                srcs = {0: {f.path: f for f in t0.files}, 1: {f.path: f for f in tree.files}}
                 new_band = 1
+                if case.get('headless_above'):
+                    # an earlier backup was killed between creating its band directory and writing the head
+                    st.put_dir(A.band_name(1))
+                    new_band = 2
+                st.mode = 'run'
+                srcs = {0: {f.path: f for f in t0.files}, new_band: {f.path: f for f in tree.files}}
             elif case.get('prior'):
                 # a fault-free earlier backup of a (possibly different) tree gives history and a basis
                 t0 = tree if case['prior'] == 'same' else make_tree(ex, case['prior_kinds'], case['prior_classes'], 'p', B=B)
@@ -613,7 +627,9 @@ def check_backup_outcome(ex, d, case):
     mon = ex.env['monitor']
     if r[0] == 'ok':
         errors = stats_field(ex, r[1], 'errors')
-        clean = (errors == 0) and not mon.errors
+        # with a headless band directory in the history the basis stitch reports that it cannot open it (a monitor
+        # message, not a failure of the backup): the same state in follow_up is judged by stats.errors alone
+        clean = (errors == 0) and (bool(case.get('headless_above')) or not mon.errors)
         if not pol.fired and not clean:
             problems.append('%s: backup reports errors=%s monitor_errors=%d' % (where, errors, len(mon.errors)))
         if clean:
